@@ -1,7 +1,7 @@
 (* C02 — message parsing does not depend on how bytes are split into reads. *)
 From Coq Require Import String.
 From Coq Require Import List Strings.Byte NArith Bool Arith.
-Require Import Bytes Show Tables Rd RdProofs HeaderBlock Retry TrailerKeys HeaderNameProofs HeaderScan ScanStable.
+Require Import Bytes Show Tables Rd RdProofs HeaderBlock Retry TrailerKeys HeaderNameProofs HeaderScan ScanStable ReqHead RespHead HeadStable.
 Import ListNotations.
 
 (* The read loop of req.ReadHeader / resp.ReadHeader / ext.ReadTrailer
@@ -55,6 +55,24 @@ Theorem C02_header_fields_fragmentation_independent : forall f1 f2 n1 n2 r1 r2 o
   obs _ _ o1 = obs _ _ o2.
 Proof. exact fields_sched_indep. Qed.
 Print Assumptions C02_header_fields_fragmentation_independent.
+
+(* The whole request head (request line, then the fields of a complete block; `req_head_parse`: method, target,
+   version and fields, or which part is bad) and the whole response head (`resp_head_parse`: version, status code,
+   fields) are extension-stable parsers, so for ANY two fragmentations of the same bytes the read loop ends with
+   the same head and the same remaining bytes, the same error, or the same premature end. *)
+Theorem C02_request_head_fragmentation_independent : forall f1 f2 n1 n2 r1 r2 o1 o2,
+  whole r1 = whole r2 ->
+  read_loop _ _ req_head_parse f1 n1 r1 = Some o1 -> read_loop _ _ req_head_parse f2 n2 r2 = Some o2 ->
+  obs _ _ o1 = obs _ _ o2.
+Proof. exact request_head_sched_indep. Qed.
+Print Assumptions C02_request_head_fragmentation_independent.
+
+Theorem C02_response_head_fragmentation_independent : forall f1 f2 n1 n2 r1 r2 o1 o2,
+  whole r1 = whole r2 ->
+  read_loop _ _ resp_head_parse f1 n1 r1 = Some o1 -> read_loop _ _ resp_head_parse f2 n2 r2 = Some o2 ->
+  obs _ _ o1 = obs _ _ o2.
+Proof. exact response_head_sched_indep. Qed.
+Print Assumptions C02_response_head_fragmentation_independent.
 
 (* body readers only Peek / Skip: without read errors a Peek answers from the bytes alone *)
 Theorem C02_peek_fragmentation_independent : forall i r1 r2,
